@@ -84,6 +84,8 @@ func cmdFree(args []string) {
 		switch mode {
 		case "blocking":
 			opts = append(opts, quartz.WithBlockingExecution())
+		case "blockpool": // both options: documented as blocking execution, the worker limit is ignored
+			opts = append(opts, quartz.WithBlockingExecution(), quartz.WithWorkerLimit(3))
 		case "pool":
 			out.Workers = 3
 			opts = append(opts, quartz.WithWorkerLimit(3))
